@@ -141,7 +141,7 @@ def scen_name(p, be, variant):
 def plan(tier, c01_only):
     """-> [(program name, grain, bound, deadline_s, share of the workers)].
     quick: bound 1 at full grain for every program; bound 2 at coarse grain for the join shapes (C02 only).
-    thorough: bound 2 at full grain for every program; bound 3 at coarse grain for the join shapes.
+    thorough: bound 2 at full grain for every program (deadline 300 s); bound 3 at coarse grain for the join shapes (360 s).
     (coarse grain: lock-protected internals of the repo / hash-table / queue primitives are atomic, see c02_il.c)"""
     pl = []
     for x in programs():
@@ -150,9 +150,9 @@ def plan(tier, c01_only):
             if x.join and not c01_only:
                 pl.append((x.name, 'coarse', 2, 50, 3))
         else:
-            pl.append((x.name, 'fine', 2, 300 if c01_only else 420, 2))
+            pl.append((x.name, 'fine', 2, 240 if c01_only else 300, 2))
             if x.join and not c01_only:
-                pl.append((x.name, 'coarse', 3, 540, 2))
+                pl.append((x.name, 'coarse', 3, 360, 3))
     return pl
 
 
